@@ -71,7 +71,7 @@ def case(cid, rng, cfg):
         return None
     rel = cfg["atype"] == "relative"
     grid = REL_ALPHAS if rel else ABS_ALPHAS
-    sel = sorted(rng.choice(len(grid), size=4, replace=False))
+    sel = sorted(rng.choice(len(grid), size=min(len(grid), cfg.get("nalpha", 4)), replace=False))
     r_ = rng.random()
     if r_ < 0.3:
         sel = sel[::-1]                               # descending grid
@@ -103,7 +103,7 @@ def case(cid, rng, cfg):
         with warnings.catch_warnings():
             warnings.simplefilter("ignore")
             mdl = core.mk(Ridge2FoldCV, alphas=(0.1, 1.0, 10.0) if use_default_grid else [a / b for a, b in alphas], alpha_type=cfg["atype"], regularization_method=cfg["method"], cv=cvarg,
-                               scoring=scoring, n_jobs=None if cfg["njobs"] == 1 else 2, **kw).fit(Xfit, Y if p > 1 else Y)
+                               scoring=scoring, n_jobs=None if cfg["njobs"] == 1 else cfg.get("njobs_real", 2), **kw).fit(Xfit, Y if p > 1 else Y)
         c["cv"] = fq(mdl.cv_values_)
         c["best_idx"] = int(np.argmin(np.abs(np.asarray([a / b for a, b in alphas]) - mdl.alpha_))) + 1
         c["best_score"] = fq([mdl.best_score_])[0]
@@ -180,6 +180,12 @@ def run(tier):
     reps = 2 if tier == "quick" else 16
     with mp.Pool(core.NCPU) as pool:
         cases = [c for part in pool.map(gen, [(w, cfgs[w::core.NCPU], core.seed(), reps) for w in range(core.NCPU)]) for c in part]
+    # worker processes of a multiprocessing pool cannot start joblib workers (n_jobs > 1 silently runs sequentially there), so
+    # the configurations with n_jobs > 1 are ALSO run here in the main process, with 2 and 3 jobs and grids of 6 - 7 alphas
+    pj = [(k, e) for k, e in cfgs if e["njobs"] != 1]
+    pj = pj[core.seed() % 6::6] if tier == "quick" else pj
+    par = [(1000 + k, dict(e, njobs_real=2 + i % 2, nalpha=6 + (i // 2) % 2)) for i, (k, e) in enumerate(pj)]
+    cases += gen((97, par, core.seed(), 1))
     verdicts, stats = core.validate_cases("trace/TraceRidgeCV.tla", [strip(c) for c in cases], timeout=7200, chunks=core.NCPU, heap="4g")
     rep.add_trace_stats("TraceRidgeCV", stats, len(cases))
     core.judge(rep, cases, verdicts)
